@@ -617,3 +617,190 @@ ASSUMPTIONS = {'C04': [
     'adjust_matrix is replaced by a hook in normalize_transform (its own contract is sampled, not proved)',
 ]}
 TRUSTED = {'C04': ['numpy (modelled by pyvc/npmodel.py)']}
+
+
+# ------------------------------------------------------------------ matrix completion (3 / 5 entries), adjust_matrix (sampled)
+
+def _rot_sample(S, prefix='q'):
+    R = sample_rotation(S, prefix)
+    return [R[i][j] for i in range(3) for j in range(3)]
+
+
+@contract(TR.normalize_matrix3, props=['C04'], name='Transformation.normalize_matrix3', status='S')
+class _NM3:
+    """One row given (a unit vector): the result is a proper rotation that reproduces the supplied row."""
+    samples = 300
+
+    def cases(S):
+        if S.mode == 'sym':
+            yield 'one-row', {'matrix': None}
+            return
+        m = _rot_sample(S)
+        i = S.rng.randrange(3)
+        yield 'one-row', {'matrix': [m[k] if k // 3 == i else None for k in range(9)]}
+
+    def ensures(result, matrix):
+        yield 'reproduces-supplied-entries', reproduces(result, matrix)
+        yield from is_rotation_goals(result)
+
+
+@contract(TR.normalize_matrix5, props=['C04'], name='Transformation.normalize_matrix5', status='S')
+class _NM5:
+    """One row and one column given (taken from a proper rotation): the result is a proper rotation that reproduces
+    the five supplied entries."""
+    samples = 300
+
+    def cases(S):
+        if S.mode == 'sym':
+            yield 'row-and-column', {'matrix': None}
+            return
+        m = _rot_sample(S)
+        i, j = S.rng.randrange(3), S.rng.randrange(3)
+        yield 'row-and-column', {'matrix': [m[k] if (k // 3 == i or k % 3 == j) else None for k in range(9)]}
+
+    def requires(matrix):
+        # the Eulerian completion divides by sin(beta): the shared entry must not be +-1
+        shared = [x for k, x in enumerate(matrix) if x is not None and
+                  all(matrix[3 * (k // 3) + c] is not None for c in range(3)) and
+                  all(matrix[3 * r + k % 3] is not None for r in range(3))]
+        return all(abs(abs(x) - 1) > 1e-6 for x in shared)
+
+    def ensures(result, matrix):
+        yield 'reproduces-supplied-entries', reproduces(result, matrix)
+        yield from is_rotation_goals(result)
+
+
+@contract(TR.adjust_matrix, props=['C04'], name='Transformation.adjust_matrix', status='S')
+class _Adjust:
+    """Sampled: an orthonormal matrix is returned unchanged (to rounding); a slightly skew matrix (entries rounded to
+    4 digits) is returned as a proper rotation within 1e-3 of the input."""
+    samples = 300
+
+    def cases(S):
+        if S.mode == 'sym':
+            yield 'near-rotations', {'matrix': None, 'exact': True}
+            return
+        m = _rot_sample(S)
+        exact = S.rng.random() < 0.5
+        yield 'near-rotations', {'matrix': m if exact else [round(x, 4) for x in m], 'exact': exact}
+
+    def call(matrix, exact):
+        import warnings
+        with warnings.catch_warnings():
+            warnings.simplefilter('ignore')
+            return TR.adjust_matrix(list(matrix))
+
+    def ensures(result, matrix, exact):
+        tol = 1e-9 if exact else 1e-3
+        yield 'close-to-the-input', all(abs(a - b) <= tol for a, b in zip(result, matrix))
+        yield from is_rotation_goals(result)
+
+
+@contract(MT.normalize_transform, props=['C04'], name='transforms.normalize_transform', status='B')
+class _MipNT:
+    """TR card text -> numbers: 3 entries get the identity matrix; a starred card has its matrix entries (4-12) read as
+    angles in degrees and replaced by their cosines, the displacement and a 13th entry untouched; J placeholders
+    stay None."""
+    scope = '6 card spellings x starred / unstarred'
+
+    def bounded(tier):
+        for star in ('', '*'):
+            yield {'dtype': star + 'tr', 'params': '1 2 3'}
+            yield {'dtype': star + 'tr', 'params': '1 2 3  0 90 90  90 0 90  90 90 0'}
+            yield {'dtype': star + 'TR', 'params': '0 0 0  30 60 90  120 30 90  90 90 0  1'}
+            yield {'dtype': star + 'tr', 'params': '0 0 0  30 60 90  120 30 90  90 90 0  -1'}
+            yield {'dtype': star + 'tr', 'params': '1 0 0  0 90 90  3j 90 90 0'}
+            yield {'dtype': star + 'tr', 'params': '5 5 5  1 0 0  0 1 0'}
+
+    def call(dtype, params):
+        return MT.normalize_transform('7', dtype, params)
+
+    def ensures(result, dtype, params):
+        name, pl = result
+        toks = []
+        for t in params.split():
+            toks += [None] * 3 if t == '3j' else [float(t)]
+        yield 'name', name == 7
+        yield 'displacement', pl[0:3] == toks[0:3]
+        if len(toks) == 3:
+            yield 'identity-matrix', pl[3:] == [1, 0, 0, 0, 1, 0, 0, 0, 1]
+            return
+        import math
+        want = [(None if x is None else (math.cos(math.radians(x)) if dtype[0] == '*' else x)) for x in toks[3:12]]
+        yield 'matrix-entries', len(pl) == len(toks) and all(
+            (a is None and b is None) or (a is not None and b is not None and abs(a - b) < 1e-12)
+            for a, b in zip(pl[3:12], want))
+        yield 'thirteenth-entry-kept', len(toks) < 13 or pl[12] == toks[12]
+
+
+# ------------------------------------------------------------------ TRCL / FILL transformation spellings (token level)
+
+from collections import OrderedDict as _OD
+
+SPELLINGS = {
+    'number': ('4', False),
+    'three': ('1 -2 0.5', False),
+    'twelve': ('1 2 3  0 1 0  -1 0 0  0 0 1', False),
+    'twelve-3-4-5': ('0 0.5 0  0.6 0.8 0  -0.8 0.6 0  0 0 1', False),
+    'thirteen,m=1': ('1 2 3  0 1 0  -1 0 0  0 0 1  1', False),
+    'starred-twelve': ('1 0 0  90 0 90  180 90 90  90 90 0', True),
+    'starred-thirteen,m=1': ('0 0 2  0 90 90  90 0 90  90 90 0  1', True),
+    'starred-three': ('0 3 0', True),
+}
+
+
+def _expected_tr(text, star, table):
+    import math
+    nums = [float(x) for x in text.split()]
+    if len(nums) == 1:
+        return tuple(table[int(nums[0])][:12])
+    if len(nums) == 3:
+        return tuple(nums + [1., 0., 0., 0., 1., 0., 0., 0., 1.])
+    m = nums[3:12]
+    if star:
+        m = [math.cos(math.radians(x)) for x in m]
+    return tuple(nums[:3] + m)
+
+
+def _mk_tr_kw(which):
+    from contracts.c12 import _bare_parser
+    from t4_geom_convert.Kernel.FileHandlers.Parser.ParseMCNPCell import ParseMCNPCell as PMC_
+
+    @contract(getattr(PMC_, f'parse_{which}_kw'), props=['C04', 'C05'], name=f'ParseMCNPCell.parse_{which}_kw[spellings]',
+              status='B')
+    class _C:
+        """The transformation attached to a cell (TRCL / *TRCL, FILL / *FILL; by number, 3, 12 or 13 entries with m = 1)
+        is the 12-number form MCNP assigns to the spelling: displacement as written, matrix entries as written, or
+        their cosines for the starred form, identity for three entries, the TR card for a number; the keyword that
+        follows is left untouched."""
+        scope = '8 spellings of the transformation, followed or not by another keyword'
+
+        def bounded(tier):
+            for name, (text, star) in SPELLINGS.items():
+                for tail in ([], ['imp:n', '1']):
+                    yield {'name': name, 'tail': tail}
+
+        def call(name, tail):
+            text, star = SPELLINGS[name]
+            p = _bare_parser(transforms=_OD([(4, [9.0, 8.0, 7.0, 0.0, 0.0, 1.0, 1.0, 0.0, 0.0, 0.0, 1.0, 0.0])]))
+            toks = (['5'] if which == 'fill' else []) + text.split() + list(tail)
+            kw = list(reversed(toks))
+            elt = ('*' if star else '') + which
+            res = getattr(p, f'parse_{which}_kw')(elt, kw)
+            return res, list(reversed(kw))
+
+        def ensures(result, name, tail):
+            res, rest = result
+            text, star = SPELLINGS[name]
+            got = res[2] if which == 'fill' else res
+            want = _expected_tr(text, star, {4: [9.0, 8.0, 7.0, 0.0, 0.0, 1.0, 1.0, 0.0, 0.0, 0.0, 1.0, 0.0]})
+            yield 'twelve-numbers', len(got) == 12
+            yield 'is-the-mcnp-rigid-motion-of-the-spelling', all(abs(a - b) < 1e-9 for a, b in zip(got, want))
+            yield 'following-keyword-untouched', rest == list(tail)
+            if which == 'fill':
+                yield 'universe', res[1] == 5 and res[0] is None
+    return _C
+
+
+_mk_tr_kw('trcl')
+_mk_tr_kw('fill')
